@@ -54,6 +54,8 @@ man = {
      'serves_properties': [c['property_id'] for c in checks if c['engine'] == 'detsched']},
     {'name': 'sysx', 'path': 'vt/sysx.py', 'kind_free_text': 'systematic delay-bounded (depth-first) enumeration of the schedules of small scenarios on top of detsched: every schedule that deviates at most k times from a deterministic default scheduler',
      'serves_properties': ['C05', 'C25', 'C27', 'C28', 'C29', 'C30']},
+    {'name': 'osback', 'path': 'vt/osback.py', 'kind_free_text': 'OS-thread second opinion: real threads and real primitives, nothing substituted; switch interval 1 us and random yields at line starts of miros code; only wall-clock-free verdicts, hangs are inconclusive',
+     'serves_properties': ['C04', 'C25', 'C27', 'C30']},
     {'name': 'seq', 'path': 'vt/checks', 'kind_free_text': 'sequential generated-history monitors with executable reference models',
      'serves_properties': [c['property_id'] for c in checks if c['engine'] == 'seq']},
   ],
